@@ -1,6 +1,7 @@
 """C07 -- editing an included header always invalidates stale cached kernels.
 Spec cache/DepHash.tla; MC mc/DepHash_*.cfg; replayer harness/dephash_replay.cpp (real header
-files, every build in a fresh process sharing one cache directory).
+files, every build in a fresh process sharing one cache directory); the log of what the builds
+reported is validated by trace/DepHashTrace.tla.
 """
 import json, os, concurrent.futures
 from vlib import Broken, b_json, run_replayer, sh
@@ -73,7 +74,7 @@ def warm_template(ctx, exe, env):
     return e["OCCA_CACHE_DIR"]
 
 
-def replay(ctx, behaviours, exe, env, fan):
+def replay(ctx, behaviours, exe, env, fan, tag=""):
     cases = [to_case(b) for b in behaviours]
     chunks = [list(range(i, len(cases), fan)) for i in range(fan)]
     chunks = [c for c in chunks if c]
@@ -82,7 +83,7 @@ def replay(ctx, behaviours, exe, env, fan):
     def work(ci):
         idx = chunks[ci]
         e = dict(env)
-        e["DEPHASH_WORK"] = os.path.join(ctx.tmp, "dh-%d" % ci)
+        e["DEPHASH_WORK"] = os.path.join(ctx.tmp, "dh%s-%d" % (tag, ci))
         os.makedirs(e["DEPHASH_WORK"], exist_ok=True)
         outs, crashes = run_replayer(ctx, exe, e, [cases[i] for i in idx], timeout=3000)
         return ci, outs, crashes
@@ -106,7 +107,7 @@ def replay(ctx, behaviours, exe, env, fan):
             ob = o["obs"][j]
             want = number(s["exp"])
             if ob["status"] != "ok":
-                ctx.mismatch("build:%s:%s" % (ob["status"], shape(b, j)),
+                ctx.mismatch("build%s:%s:%s" % (tag, ob["status"], shape(b, j)),
                              "build %d of the history did not run (%s, exit %s): %s ... %s" %
                              (j, ob["status"], ob.get("code"), [(t["a"], t.get("h"), t.get("x")) for t in b["steps"][:j + 1]],
                               (ob.get("tail") or ob.get("what") or "")[-160:].replace("\n", " ")),
@@ -114,11 +115,50 @@ def replay(ctx, behaviours, exe, env, fan):
                 break   # the rest of this history runs on a state the spec does not predict
             acts[ob["act"]] = acts.get(ob["act"], 0) + 1
             if ob["val"] != want:
-                ctx.mismatch("stale-value:%s:%s" % (ob["act"], shape(b, j)),
+                ctx.mismatch("stale-value%s:%s:%s" % (tag, ob["act"], shape(b, j)),
                              "build %d computed %d, the current files give %d (%s) after %s" %
                              (j, ob["val"], want, ob["act"], [(t["a"], t.get("h"), t.get("x")) for t in b["steps"][:j + 1]]),
                              [cases[i]])
-    return cases, builds, acts
+    return cases, builds, acts, results
+
+
+def validate_traces(ctx, behaviours, results):
+    """code -> spec: the log of what the real builds reported (cache directory, compiled/loaded, value)
+    is consumed by trace/DepHashTrace.tla; every event must be accepted."""
+    events, origin = [], []
+    for i, b in enumerate(behaviours):
+        o = results[i]
+        if any(ob is not None and ob["status"] != "ok" for ob in o["obs"]):
+            continue                      # already reported by the replay comparison
+        events.append({"e": "reset", "init": {h: {"val": c["val"], "inc": sorted(c["inc"])} for h, c in b["init"].items()}})
+        origin.append((i, -1))
+        for j, s in enumerate(b["steps"]):
+            if s["a"] == "build":
+                ob = o["obs"][j]
+                events.append({"e": "build", "dir": ob["dir"], "act": ob["act"], "val": ob["val"]})
+            else:
+                events.append({"e": "edit", "h": s["h"], "val": s["text"]["val"], "inc": sorted(s["text"]["inc"])})
+            origin.append((i, j))
+    if not events:
+        return 0
+    path = os.path.join(ctx.tmp, "dephash-trace.ndjson")
+    with open(path, "w") as f:
+        for e in events:
+            f.write(json.dumps(e) + "\n")
+    r = ctx.tlc("trace/MC_DepHashTrace.tla", "trace/DepHashTrace.cfg", workers=1, deadlock=False,
+                env={"TRACE": path}, timeout=2400)
+    if r.rc != 0:
+        raise Broken("trace validation run failed (rc=%s):\n%s" % (r.rc, r.out[-2000:]))
+    accepted = r.depth - 1
+    if accepted < len(events):
+        i, j = origin[accepted]
+        ev = events[accepted]
+        b = behaviours[i]
+        ctx.mismatch("trace-rejected:%s:%s:%s" % (ev["e"], ev.get("act", "-"), shape(b, max(j, 0))),
+                     "the trace spec rejects event %d %s of history %s" %
+                     (accepted, ev, [(t["a"], t.get("h"), t.get("x")) for t in b["steps"][:j + 1]]),
+                     events[max(0, accepted - j - 1):accepted + 1])
+    return accepted
 
 
 def run(ctx):
@@ -163,8 +203,25 @@ def run(ctx):
     env = ctx.occa_env(lib)
     env["DEPHASH_TIMEOUT"] = "300"
     env["DEPHASH_TEMPLATE"] = warm_template(ctx, exe, env)
-    cases, builds, acts = replay(ctx, behaviours, exe, env, fan=12 if thorough else 8)
+    cases, builds, acts, results = replay(ctx, behaviours, exe, env, fan=12 if thorough else 8)
+    accepted = validate_traces(ctx, behaviours, results)
     ctx.traces_validated = len(behaviours)
+    variants = 1
+    if thorough:
+        # the same short histories through device::buildKernelFromString, and on the OpenMP device
+        short = [b for b in behaviours if len(b["steps"]) <= 4 and len(b["init"]) == 2]
+        for tag, extra in (("-string", {"DEPHASH_KIND": "string"}), ("-openmp", {"DEPHASH_MODE": "OpenMP"})):
+            e2 = dict(env)
+            e2.update(extra)
+            _, b2, a2, r2 = replay(ctx, short, exe, e2, fan=12, tag=tag)
+            accepted += validate_traces(ctx, short, r2)
+            builds += b2
+            for k, v in a2.items():
+                acts[k] = acts.get(k, 0) + v
+            ctx.traces_validated += len(short)
+            variants += 1
+    ctx.cov["trace_events_accepted"] = accepted
+    ctx.cov["replay_variants"] = variants
     ctx.samples = [cases[0], cases[len(cases) // 2], cases[-1]]
     ctx.cov.update({"behaviours_replayed": len(behaviours), "builds_in_fresh_processes": builds,
                     "builds_compiled": acts.get("compiled", 0), "builds_loaded_from_cache": acts.get("loaded", 0)})
